@@ -46,3 +46,27 @@ PROOFS = [
           expect=['do_space_contract.postcondition']),
 ]
 PROOFS[0].site = _site
+
+
+import replay_lib  # noqa: E402
+
+
+def _replay(repo, failure, workroot):
+    """R-log: find the rule of the failed clause, run the rebuilt binary with that option at remove/force over a small
+    corpus with the space log on, and look for a logged gap that contradicts the value."""
+    import re
+    exe = replay_lib.build_binary(repo, workroot)
+    if not exe:
+        return False, 'working tree does not build natively'
+    mo = re.search(r'rule=(\w+)', failure.get('site', '') or _site(failure))
+    rule = mo.group(1) if mo else None
+    if rule == 'sp_bool':
+        hit, note = replay_lib.scenario_sp_bool_site(exe, workroot)
+        if hit:
+            return hit, note
+    if rule:
+        return replay_lib.scenario_spacing_option(exe, workroot, rule)
+    return False, 'no rule identified'
+
+
+PROOFS[0].replay = _replay
